@@ -18,6 +18,16 @@ DEFAULT_RULE = ("cases come from harness/src/gen.rs (one SplitMix64 stream seede
                 "(at least one database/shell/sleep event, or a failure verdict)")
 
 PROPS = {
+    "C18": {
+        "runs": [
+            {"profile": "c18hash", "n_quick": 10000, "n_thorough": 200000, "nontrivial": "any"},
+            {"profile": "cli18", "kind": "cli", "n_quick": 4, "n_thorough": 40, "nontrivial": "any"},
+        ],
+        "observable": "(a) 64-bit value of DefaultHasher::new() on a path, in-process; (b) set of files for which the real CLI prints a status line, per (N, id), in separate processes, configured by flags / SLT_PARTITION_* / Buildkite variables; oracle on the CLI alone: every file of a multi-match glob covered exactly once over all ids, identical selection on re-run, invalid configurations rejected without engine traffic",
+        "exhaustive": True,
+        "explanation": "per file set (2..30 + 0..10 random names, two globs so that the single-match rule is exercised): all N in 1..8 (first set; 1..4 for further sets in the quick tier) x all ids; 7 invalid / borderline option combinations",
+        "trusted": ["std's SipHash-1-3 (DefaultHasher) is compared with Sip.lean, not trusted", "clap option parsing, glob crate"],
+    },
     "C07": {
         "runs": [{"profile": "update", "n_quick": 2500, "n_thorough": 60000, "nontrivial": "update"}],
         "observable": "bytes of every file of the tree after Runner::update_test_file (real files, include trees), database call trace; oracle on the implementation alone: parse(before) vs parse(after) agree on every field but the expectation",
